@@ -14,6 +14,10 @@ FLIP = {"Lt": "Gt", "Le": "Ge", "Gt": "Lt", "Ge": "Le", "Eq": "Eq", "Ne": "Ne"}
 
 
 class Exec(Interp):
+    # analyses that inspect the root's locals in the final state (what was left of a cursor) keep them past their
+    # StorageDead; a dead local is never read again by the program, so this changes no verdict
+    keep_root_locals = False
+
     # ------------------------------------------------------------------ scalar helpers
     def sc(self, S, v):
         """Symbol of a scalar value, or None."""
@@ -376,8 +380,12 @@ class Exec(Interp):
         if k == "assign":
             v = self.rvalue(S, frame, st["rv"], site)
             self.write_place(S, frame, st["place"], v, site + ("w",))
+            if self.hooks and frame[0] == "R" and st["place"]["l"] == 0 and not st["place"]["p"]:
+                for h in self.hooks:
+                    h("ret_assign", interp=self, value=v, state=S, frame=frame, site=site)
         elif k == "dead":
-            S.cells.pop((frame, st["l"]), None)
+            if not (self.keep_root_locals and frame[0] == "R"):
+                S.cells.pop((frame, st["l"]), None)
         elif k == "live":
             pass
         elif k == "set_discr":
@@ -1231,6 +1239,9 @@ class Exec(Interp):
         if t["t"] is None:
             return []
         self.write_place(S, frame, t["dest"], ret, site + ("ret",))
+        if self.hooks and frame[0] == "R" and t["dest"]["l"] == 0 and not t["dest"]["p"]:
+            for h in self.hooks:
+                h("ret_assign", interp=self, value=ret, state=S, frame=frame, site=site)
         return [(t["t"], S)]
 
     def top_of_dest(self, S, inst, t, site):
